@@ -584,6 +584,19 @@ def line_of(sc, recs, eps32):
               eps32=core.rj(eps32))
 
 
+def pair_line(pair, results, eps32):
+  """ONE driver line for a pair of binary-class objects: the history addressed to both (`binRun2`)"""
+  a, b = pair["scs"]
+  la, lb = line_of(a, results[0][0], eps32), line_of(b, results[1][0], eps32)
+  its = [iter(la["ops"]), iter(lb["ops"])]
+  ops = []
+  for w in pair["order"]:
+    op = next(its[w], None)
+    if op is not None:
+      ops.append(dict(op, w=w))
+  return dict(op="bin_pair", obj1=la["obj"], obj2=lb["obj"], ch_last=a["ch_last"], ops=ops, eps32=core.rj(eps32))
+
+
 # ------------------------------------------------------------------ generators
 
 ALPHA_F = [2.0, 0.5, 3.0, 0.1, 4.0, 0.75, 8.0, 1.0, 1.5]
@@ -1051,15 +1064,29 @@ def why_raises(sc, rec):
 
 def run_obj(run, tier, Q, K, tf, rng, eps32, judge):
   scs = gen(rng, tier)
-  execd = []
+  execd, lines, where = [], [], []
   for sc in scs:
     if "scs" in sc:
-      for s2, res in zip(sc["scs"], execute_pair(Q, K, tf, sc)):
-        execd.append((s2,) + tuple(res))
+      res = execute_pair(Q, K, tf, sc)
+      both_bin = all(BASE[s2["cls"]] == "binary" for s2 in sc["scs"])
+      if both_bin and all(r[3] is None for r in res):
+        # the pair model (`binRun2`): one line, the two objects' outputs come back as "a" / "b"
+        lines.append(pair_line(sc, res, eps32))
+        where += [(len(lines) - 1, "a"), (len(lines) - 1, "b")]
+      for s2, r in zip(sc["scs"], res):
+        execd.append((s2,) + tuple(r))
+        if not (both_bin and all(t[3] is None for t in res)):
+          # mixed classes: each object against its solo model (justified by C04_*_shared_argument_independent)
+          lines.append(line_of(s2, r[0], eps32))
+          where.append((len(lines) - 1, None))
       continue
     recs, final, last, op_err = execute(Q, K, tf, sc)
     execd.append((sc, recs, final, last, op_err))
-  outs = core.run_driver("C04", [line_of(sc, recs, eps32) for sc, recs, _, _, _ in execd])
+    lines.append(line_of(sc, recs, eps32))
+    where.append((len(lines) - 1, None))
+  raw = core.run_driver("C04", lines)
+  outs = [raw[i] if k is None else raw[i].get(k, raw[i]) for i, k in where]
+  run.count("obj:pair-model-lines", sum(1 for _, k in where if k == "a"))
   n_calls = 0
   for (sc, recs, final, last, op_err), o in zip(execd, outs):
     cls = sc["cls"]
